@@ -23,7 +23,7 @@ CHECKS = {
     'C15': ('model node tree (address = path of local addresses, lost interface takes its subtree): connectivity getters after start (incl. a table change during enumeration, unknown nodes whose unique id is one byte off an absent configured board) and after each of 0-30 node-new/node-lost notices (incl. repeated ones), after an address swap followed by a second enumeration (sys_reset), one NODE_CHANGED_ACK(version) to the announcer per notice, a ping per board addressed to the model\'s current address or refused',
             'simulated bus node table updated alongside scripted notices; announcers of depth <= 2',
             'runtime monitoring: tree-model oracle over getter snapshots and decoded wire + ASan/UBSan'),
-    'C16': ('stop transcript vs. model per connected track output, also inside a failed start during which a configured track output logged on; link-time thread monitor (create/join exactly once, none alive after stop or failed start); heap and file-descriptor conservation over six identical sessions (ASan allocator statistics, LSan); idempotent stop/start (incl. the auto-flush period of the running session); probe session as session k vs. the same session in a fresh process (per-node transcripts, snapshots, return values)',
+    'C16': ('stop transcript vs. model per connected track output, also inside a failed start during which a configured track output logged on; link-time thread monitor (create/join exactly once, none alive after stop or failed start); heap and file-descriptor conservation over six identical sessions (ASan allocator statistics, LSan); idempotent stop/start (incl. the auto-flush period of the running session); two probe sessions (normal mode: per-node transcripts, snapshots, return values; low-level debug mode: the bytes written, i.e. packet boundaries and sequence numbers) as sessions k, k+1 after sessions of every kind (incl. another configuration of the same node tree) vs. the same two sessions in a fresh process',
             'pthread_create/join interposed with ld --wrap; __sanitizer_get_current_allocated_bytes; decoded message lists compared per node',
             'runtime monitoring: lifecycle monitors (threads, heap, transcript, session equivalence) + ASan/LSan'),
     'C19': ('per occupancy report of SecAck / non-SecAck boards the decoded wire at the next quiescent point without any flush step: exactly one mirror with identical number/payload (packets with several reports from several nodes, malformed last message), none for boards without feature 0x03>0 (absent boards, address reuse, re-login, an earlier session of the same process with the opposite SecAck setting); stalled or budget-blocked board: mirrors owed and delivered in order exactly once after release',
